@@ -1830,6 +1830,12 @@ func (c *compiler) VisitCastExpr(e *ast.CastExpr) ast.VisitResult {
 			return ast.VisitRecurse
 		}
 
+		// a list that is converted to or from a type definition of its list type is only relabelled
+		if _, isList := lhsTyp.(*ddpIrListType); isList {
+			c.latestReturn, c.latestReturnType, c.latestIsTemp = lhs, lhsTyp, isTempLhs
+			return ast.VisitRecurse
+		}
+
 		listType := c.getListType(lhsTyp)
 		list := c.NewAlloca(listType.typ)
 		c.cbb.NewCall(listType.fromConstantsIrFun, list, newInt(1))
